@@ -5,6 +5,7 @@ package circuitbreaker
 import (
 	"fmt"
 	"hash/fnv"
+	"reflect"
 	"runtime"
 	"sort"
 	"strings"
@@ -12,6 +13,7 @@ import (
 	"sync/atomic"
 	"testing"
 	"time"
+	"unsafe"
 
 	"github.com/anishathalye/porcupine"
 	"github.com/megaease/easegress/pkg/zzverif/c08model"
@@ -91,6 +93,19 @@ func vfConcModel(p *c08model.Policy, start int64) porcupine.Model {
 	return nm.ToModel()
 }
 
+// vfFindMutex returns the breaker's own mutex (first field of type sync.Mutex), or nil. Only used
+// to make callers pile up at the breaker's entry; never to decide anything.
+func vfFindMutex(cb *CircuitBreaker) *sync.Mutex {
+	v := reflect.ValueOf(cb).Elem()
+	mt := reflect.TypeOf(sync.Mutex{})
+	for i := 0; i < v.NumField(); i++ {
+		if v.Field(i).Type() == mt {
+			return (*sync.Mutex)(unsafe.Pointer(v.Field(i).UnsafeAddr()))
+		}
+	}
+	return nil
+}
+
 // vfTask is one pre-drawn unit of work of a goroutine in a burst.
 type vfTask struct {
 	finish  *vfPending // complete this call admitted in an earlier burst; nil = a new call
@@ -129,9 +144,13 @@ func TestVerifC08Conc(t *testing.T) {
 		var ops []porcupine.Operation
 		var pending []*vfPending
 		nextID := 0
-		nBursts := rapid.IntRange(2, 6).Draw(rt, "bursts")
+		nBursts := rapid.IntRange(3, 8).Draw(rt, "bursts")
 		var states []string
-		overlapBursts, mixedBursts, lateFinishes := 0, 0, 0
+		overlapBursts, mixedBursts, lateFinishes, gatedBursts, ungatedOverlap := 0, 0, 0, 0, 0
+		gate := vfFindMutex(cb)
+		if gate == nil {
+			vf.Class("conc: breaker has no sync.Mutex field (gated bursts unavailable)")
+		}
 		var desc []string
 		var drawn []string // what the generator chose (distinctness key; independent of the schedule)
 
@@ -149,9 +168,18 @@ func TestVerifC08Conc(t *testing.T) {
 			vfAdvance(d)
 			now := vfNow()
 			g := rapid.SampledFrom([]int{2, 4, 8}).Draw(rt, "goroutines")
+			useGate := rapid.Bool().Draw(rt, "gate")
 			scripts := make([][]vfTask, g)
 			for i := 0; i < g; i++ {
-				nt := rapid.IntRange(1, 4).Draw(rt, "tasks")
+				// at most 16 operations per burst: porcupine's search is exponential in the number of
+				// mutually concurrent operations
+				nt := 1
+				switch g {
+				case 2:
+					nt = rapid.IntRange(1, 3).Draw(rt, "tasks")
+				case 4:
+					nt = rapid.IntRange(1, 2).Draw(rt, "tasks")
+				}
 				for k := 0; k < nt; k++ {
 					o := vfGenOutcome(rt, p, failPct, slowPct)
 					// no boundary outcomes here: they only add branches, the sequential test covers them
@@ -186,53 +214,103 @@ func TestVerifC08Conc(t *testing.T) {
 			results := make([][]porcupine.Operation, g)
 			held := make([][]*vfPending, g)
 			panics := make([]string, g)
-			var ready int32 // spin barrier: all goroutines start their scripts at (nearly) the same instant
+			// Rounds: all goroutines issue their r-th task at (nearly) the same instant (spin barrier in
+			// which the coordinator takes part). In a gated burst the coordinator additionally holds the
+			// breaker's mutex while the goroutines arrive, so that they are all pending inside
+			// AcquirePermission / RecordResult at the same time whatever the load of the machine.
+			rounds := 0
+			for i := range scripts {
+				if len(scripts[i]) > rounds {
+					rounds = len(scripts[i])
+				}
+			}
+			gated := gate != nil && useGate
+			arrive := make([]int32, rounds)
+			done := make([]int32, rounds)
+			wait := func(c *int32, n int) {
+				for spins := 0; atomic.LoadInt32(c) < int32(n); spins++ {
+					if spins%200 == 199 {
+						runtime.Gosched()
+					}
+				}
+			}
+			exec := func(i int, tk vfTask) {
+				if tk.finish != nil {
+					c := atomic.AddInt64(&ts, 1)
+					cb.RecordResult(tk.finish.stateID, tk.outcome.hasErr, time.Duration(tk.outcome.dur))
+					r := atomic.AddInt64(&ts, 1)
+					results[i] = append(results[i], porcupine.Operation{ClientId: i, Call: c, Return: r,
+						Input:  vfConcIn{op: vfOpRecord, call: tk.finish.callID, hasErr: tk.outcome.hasErr, dur: tk.outcome.dur, now: now},
+						Output: vfConcOut{}})
+					return
+				}
+				c := atomic.AddInt64(&ts, 1)
+				permit, sid := cb.AcquirePermission()
+				r := atomic.AddInt64(&ts, 1)
+				results[i] = append(results[i], porcupine.Operation{ClientId: i, Call: c, Return: r,
+					Input: vfConcIn{op: vfOpAcquire, call: tk.callID, now: now}, Output: vfConcOut{permit: permit}})
+				if !permit {
+					return
+				}
+				if tk.hold {
+					held[i] = append(held[i], &vfPending{callID: tk.callID, stateID: sid, burst: b})
+					return
+				}
+				c = atomic.AddInt64(&ts, 1)
+				cb.RecordResult(sid, tk.outcome.hasErr, time.Duration(tk.outcome.dur))
+				r = atomic.AddInt64(&ts, 1)
+				results[i] = append(results[i], porcupine.Operation{ClientId: i, Call: c, Return: r,
+					Input:  vfConcIn{op: vfOpRecord, call: tk.callID, hasErr: tk.outcome.hasErr, dur: tk.outcome.dur, now: now},
+					Output: vfConcOut{}})
+			}
 			var wg sync.WaitGroup
 			for i := 0; i < g; i++ {
 				wg.Add(1)
 				go func(i int) {
 					defer wg.Done()
+					cur, fin := -1, -1
 					defer func() {
 						if r := recover(); r != nil {
 							panics[i] = fmt.Sprint(r)
 						}
+						// never leave the others waiting
+						for r := cur + 1; r < rounds; r++ {
+							atomic.AddInt32(&arrive[r], 1)
+						}
+						for r := fin + 1; r < rounds; r++ {
+							atomic.AddInt32(&done[r], 1)
+						}
 					}()
-					atomic.AddInt32(&ready, 1)
-					for atomic.LoadInt32(&ready) < int32(g) {
-						runtime.Gosched()
-					}
-					for _, tk := range scripts[i] {
-						if tk.finish != nil {
-							c := atomic.AddInt64(&ts, 1)
-							cb.RecordResult(tk.finish.stateID, tk.outcome.hasErr, time.Duration(tk.outcome.dur))
-							r := atomic.AddInt64(&ts, 1)
-							results[i] = append(results[i], porcupine.Operation{ClientId: i, Call: c, Return: r,
-								Input:  vfConcIn{op: vfOpRecord, call: tk.finish.callID, hasErr: tk.outcome.hasErr, dur: tk.outcome.dur, now: now},
-								Output: vfConcOut{}})
-							continue
+					for round := 0; round < rounds; round++ {
+						cur = round
+						atomic.AddInt32(&arrive[round], 1)
+						wait(&arrive[round], g+1)
+						if round < len(scripts[i]) {
+							exec(i, scripts[i][round])
 						}
-						c := atomic.AddInt64(&ts, 1)
-						permit, sid := cb.AcquirePermission()
-						r := atomic.AddInt64(&ts, 1)
-						results[i] = append(results[i], porcupine.Operation{ClientId: i, Call: c, Return: r,
-							Input: vfConcIn{op: vfOpAcquire, call: tk.callID, now: now}, Output: vfConcOut{permit: permit}})
-						if !permit {
-							continue
-						}
-						if tk.hold {
-							held[i] = append(held[i], &vfPending{callID: tk.callID, stateID: sid, burst: b})
-							continue
-						}
-						c = atomic.AddInt64(&ts, 1)
-						cb.RecordResult(sid, tk.outcome.hasErr, time.Duration(tk.outcome.dur))
-						r = atomic.AddInt64(&ts, 1)
-						results[i] = append(results[i], porcupine.Operation{ClientId: i, Call: c, Return: r,
-							Input:  vfConcIn{op: vfOpRecord, call: tk.callID, hasErr: tk.outcome.hasErr, dur: tk.outcome.dur, now: now},
-							Output: vfConcOut{}})
+						fin = round
+						atomic.AddInt32(&done[round], 1)
 					}
 				}(i)
 			}
+			for round := 0; round < rounds; round++ {
+				if gated {
+					gate.Lock()
+				}
+				atomic.AddInt32(&arrive[round], 1)
+				wait(&arrive[round], g+1)
+				if gated {
+					for k := 0; k < 64; k++ {
+						runtime.Gosched()
+					}
+					gate.Unlock()
+				}
+				wait(&done[round], g)
+			}
 			wg.Wait()
+			if gated {
+				gatedBursts++
+			}
 
 			admitted, rejected := 0, 0
 			var burstOps []porcupine.Operation
@@ -275,17 +353,20 @@ func TestVerifC08Conc(t *testing.T) {
 			}
 			if overlap {
 				overlapBursts++
+				if !gated {
+					ungatedOverlap++
+				}
 			}
 			if admitted > 0 && rejected > 0 {
 				mixedBursts++
 			}
 			ops = append(ops, burstOps...)
-			desc = append(desc, fmt.Sprintf("burst %d: +%dns g=%d admitted=%d rejected=%d overlap=%v", b, d, g, admitted, rejected, overlap))
+			desc = append(desc, fmt.Sprintf("burst %d: +%dns g=%d admitted=%d rejected=%d overlap=%v gated=%v", b, d, g, admitted, rejected, overlap, gated))
 			readState()
 			desc = append(desc, "state "+states[len(states)-1])
 		}
 
-		res, info := porcupine.CheckOperationsVerbose(vfConcModel(p, start), ops, 120*time.Second)
+		res, info := porcupine.CheckOperationsVerbose(vfConcModel(p, start), ops, 60*time.Second)
 		_ = info
 		if res == porcupine.Unknown {
 			rt.Fatalf("VF-INCONCLUSIVE porcupine timed out on a history of %d operations", len(ops))
@@ -309,6 +390,12 @@ func TestVerifC08Conc(t *testing.T) {
 		}
 
 		vf.Class(fmt.Sprintf("conc: state changes observed between bursts=%d", min(changes, 3)))
+		if gatedBursts > 0 {
+			vf.Class("conc: history with a gated burst")
+		}
+		if ungatedOverlap > 0 {
+			vf.Class("conc: history with overlapping operations in an ungated burst")
+		}
 		if overlapBursts > 0 {
 			vf.Class("conc: history with truly overlapping operations")
 		}
